@@ -50,9 +50,15 @@ def render(seq, hops, r=None, split=False):
             toks.append("W")
         elif k == "P":
             if split and r is not None and r.chance(1, 2):
-                toks.append(f"PS {hx(hops[i])} {hx(r.range(1, ANSWER_LEN - 1))}")
+                if r.chance(1, 2):
+                    # the two pieces of the answer are separated by (virtual) time: anything timer-driven in the client fires in between
+                    toks.append(f"PG {hx(hops[i])} {hx(r.range(1, ANSWER_LEN - 1))} {hx(r.choice([1, 50, 999, 1000, 1001, 1500, 3500, 30000, 61000]))}")
+                else:
+                    toks.append(f"PS {hx(hops[i])} {hx(r.range(1, ANSWER_LEN - 1))}")
             else:
                 toks.append(f"P {hx(hops[i])}")
+            if split and r is not None and r.chance(1, 6):
+                toks.append(f"T {hx(r.choice([1, 1000, 5000, 60000, 600000]))}")
         else:
             toks.append(k if isinstance(k, str) and " " in k else str(k))
     return toks
@@ -78,7 +84,7 @@ def judge_safety(chk, pid, case, toks, im):
         return False, None
     outs, reader = p
     reqs = [int(x.split()[1], 16) for x in toks if x.startswith("R ")]
-    emitted = [int(x.split()[1], 16) for x in toks if x.startswith("P ") or x.startswith("PS ")]
+    emitted = [int(x.split()[1], 16) for x in toks if x.startswith(("P ", "PS ", "PG "))]
     if len(outs) != len(reqs):
         chk.violation("number of futures differs from the number of sends", dict(case=case, impl=short(im)))
         return False, None
@@ -140,9 +146,19 @@ def check_C11(chk, tier, seed):
         hops = [r.choice([1, 2, 3, 4]) for _ in range(n)]
         toks = []
         for i in range(n):
-            toks += [f"R {hx(hops[i])}", "W"]
+            toks.append(f"R {hx(hops[i])}")
+            c = r.below(8)
+            if c == 0:
+                toks += ["G " + hx(r.choice([1, 20, 43])), "WE"]       # the write fails after the waiter was registered
+            elif c == 1:
+                toks += ["G " + hx(r.choice([1, 20])), f"P {hx(hops[i])}", "WE"]   # ... after the answer has already come in
+            toks.append("W")
+            if r.chance(1, 4):
+                toks.append(f"D {r.below(i + 1)}")                        # the caller drops a future (pending or completed)
             for _ in range(r.below(3)):
                 toks.append(f"P {hx(r.choice([1, 2, 3, 4, 5]))}")
+            if r.chance(1, 8):
+                toks.append(f"T {hx(r.choice([1000, 60000]))}")
         cases.append((line(toks), toks, False))
     lines = [c[0] for c in cases]
     impl, model = eng.run(lines)
@@ -162,11 +178,13 @@ def check_C11(chk, tier, seed):
         if ok and im != mo:
             chk.corr_break("client observation differs from the model", dict(case=c, impl=short(im), model=short(mo)))
         if i % max(1, len(cases) // 6) == 0:
-            chk.sample(dict(case=short(c, 200), impl=short(im, 200), P=ok))
+            chk.sample(dict(case=c, impl=short(im, 200), P=ok))
     chk.rule = ("EVERY interleaving of {send starts and registers, first request octet written, send returns, peer answers} for 1, 2 and 3 outstanding requests "
                 "(answers may overtake each other, arrive before the send call has returned or before the request is fully written), the reader running to "
                 f"quiescence after every event; {nrand} sampled interleavings for 4-5 requests with split answers, varying write-gate sizes and extreme ids; "
-                "adversarial peers (unsolicited / duplicated / foreign ids) for the safety half; single-threaded runtime, paused time; non-trivial = >= 2 requests")
+                "adversarial peers (unsolicited / duplicated / foreign ids), futures dropped by the caller while pending or after completion, sends whose write fails "
+                "after the waiter was registered - for the safety half; answers delivered in two pieces separated by 1 ms .. 61 s of virtual time and idle periods up "
+                "to 10 min (anything timer-driven inside the client gets its chance to fire); single-threaded runtime, paused time; non-trivial = >= 2 requests")
     chk.assumptions = ["partial: atomicity at await points; tokio Mutex/oneshot by contract; sends are sequential because send_message takes &mut self"]
 
 
@@ -214,10 +232,19 @@ def check_C12(chk, tier, seed):
                     toks.append(f"P {hx(ids[i])}")
             if r.chance(1, 5):
                 toks.append(f"B {r.choice(kinds)}")
+            if r.chance(1, 10):
+                toks.append("WE")                                         # send_message fails in its write (nothing happens if it is not blocked)
             toks.append("W")
+            if r.chance(1, 6):
+                toks.append(f"D {r.below(i + 1)}")                        # a future dropped by the caller (e.g. its own timeout)
+            if r.chance(1, 8):
+                toks.append(f"T {hx(r.choice([1, 1000, 30000, 600000]))}")
             c = r.below(8)
             if c < 3:
-                toks.append(f"P {hx(ids[r.below(i + 1)])}")
+                if r.chance(1, 4):
+                    toks.append(f"PG {hx(ids[r.below(i + 1)])} {hx(r.range(1, ANSWER_LEN - 1))} {hx(r.choice([1, 1000, 1500, 61000]))}")
+                else:
+                    toks.append(f"P {hx(ids[r.below(i + 1)])}")
             elif c == 3:
                 toks.append(f"P {hx(r.choice([7, 8, 9]))}")          # unmatched answer: the reader stops
             elif c == 4:
@@ -253,7 +280,7 @@ def check_C12(chk, tier, seed):
                 for (idx, (pos, h)), o in zip(enumerate(reqs), outs):
                     if o == "PENDING":
                         later_same = any(x.startswith("R ") and int(x.split()[1], 16) == h for x in toks[pos + 1:])
-                        answered = any((x.startswith("P ") or x.startswith("PS ")) and int(x.split()[1], 16) == h for x in toks[pos + 1:])
+                        answered = any(x.startswith(("P ", "PS ", "PG ")) and int(x.split()[1], 16) == h for x in toks[pos + 1:])
                         if later_same or answered:
                             ok = False
                             chk.violation("a response future is pending although its answer was sent or its waiter was superseded", dict(case=c, impl=short(im)))
@@ -263,8 +290,9 @@ def check_C12(chk, tier, seed):
         if ok and im != mo:
             chk.corr_break("client observation differs from the model", dict(case=c, impl=short(im), model=short(mo)))
         if i % max(1, len(cases) // 6) == 0:
-            chk.sample(dict(case=short(c, 200), impl=short(im, 200), P=ok))
+            chk.sample(dict(case=c, impl=short(im, 200), P=ok))
     chk.rule = ("1..4 outstanding requests x every subset of answers already delivered x {EOF, reset, undecodable octets, unknown AVP}; the answer stream cut at "
                 f"EVERY octet offset inside a pending answer; {nrand} random histories with repeated ids (superseded waiters), unmatched answers, answers racing the "
-                "write, sends attempted after the reader stopped; hangs = futures still pending once the paused runtime is idle; reader running to quiescence after every event")
+                "write, sends attempted after the reader stopped, sends whose write fails, futures dropped by the caller, idle periods and split answers with gaps in "
+                "virtual time; hangs = futures still pending once the paused runtime is idle; reader running to quiescence after every event")
     chk.assumptions = ["partial as C11; 'eventually' = by the time the finite peer script has been played and the runtime is idle"]
